@@ -86,13 +86,13 @@ func (l *g5Link) firstErr(d time.Duration) string {
 // stream per raw protocol-id field (direction bit included) and writes
 // segments on request.
 type g5Peer struct {
-	conn   net.Conn
-	mu     sync.Mutex
-	bufs   map[uint16][]byte
-	note   chan struct{}
-	eof    bool
-	wmu    sync.Mutex
-	closed bool
+	conn      net.Conn
+	mu        sync.Mutex
+	bufs      map[uint16][]byte
+	note      chan struct{}
+	eof       bool
+	wmu       sync.Mutex
+	closeOnce sync.Once
 }
 
 func newG5Peer(c net.Conn) *g5Peer {
@@ -180,7 +180,7 @@ func (p *g5Peer) send(rawId uint16, payload []byte) error {
 		binary.BigEndian.PutUint16(seg[4:6], rawId)
 		binary.BigEndian.PutUint16(seg[6:8], uint16(n))
 		copy(seg[8:], payload[:n])
-		_ = p.conn.SetWriteDeadline(time.Now().Add(90 * time.Second))
+		_ = p.conn.SetWriteDeadline(time.Now().Add(40 * time.Second))
 		if _, err := p.conn.Write(seg); err != nil {
 			return err
 		}
@@ -193,18 +193,15 @@ func (p *g5Peer) send(rawId uint16, payload []byte) error {
 func (p *g5Peer) sendRaw(b []byte) error {
 	p.wmu.Lock()
 	defer p.wmu.Unlock()
-	_ = p.conn.SetWriteDeadline(time.Now().Add(90 * time.Second))
+	_ = p.conn.SetWriteDeadline(time.Now().Add(40 * time.Second))
 	_, err := p.conn.Write(b)
 	return err
 }
 
+// close ends the connection. It must not wait for a writer: a send blocked on a peer that
+// no longer reads holds wmu until the write fails, which closing the connection causes.
 func (p *g5Peer) close() {
-	p.wmu.Lock()
-	if !p.closed {
-		p.closed = true
-		_ = p.conn.Close()
-	}
-	p.wmu.Unlock()
+	p.closeOnce.Do(func() { _ = p.conn.Close() })
 }
 
 // enc is cbor.Encode that panics on error (inputs are harness-made).
